@@ -218,8 +218,8 @@ fn main() {
     // combining mark, CR LF next to a lone CR and a lone LF: two strings can share a code-point prefix
     // that ends inside a cluster of one of them
     {
-        let pre_all = strings(&["e", "\u{301}", "x", "\r", "\n"], run.pick(3, 4));
-        run.bounds.insert("cluster_prefix_phase".into(), json!(format!("all pairs of the {} strings over [e, U+0301, x, CR, LF] x all flags", pre_all.len())));
+        let pre_all = strings(&["e", "\u{301}", "x", "\r", "\n", "\u{915}", "\u{93f}"], run.pick(3, 4));
+        run.bounds.insert("cluster_prefix_phase".into(), json!(format!("all pairs of the {} strings over [e, U+0301, x, CR, LF, U+0915, U+093F (a spacing mark: one cluster with its base only under the extended rules)] x all flags", pre_all.len())));
         let base5 = base3 + xy_chars.len() * (xy_chars.len() - 1) * xy_all.len() + 3 * tu_verif::enumerate::threshold_lengths(run.pick(8, 10)).len();
         for (ia, a) in pre_all.iter().enumerate() {
             if !run.unit((base5 + ia) as u64) {
